@@ -44,7 +44,7 @@ package forkexec
 // system call its documented effect on the ghost child state; every call may fail.
 // int mode: descriptor shuffle (C06), frame (C06), error reporting (C07), rlimits (C08).
 // bv mode: flag words and the exec-point security state (C03, C04, C05, C07).
-//@ func pkg/forkexec.forkAndExecInChild props C03 C04 C05 C06 C07 C08
+//@ func pkg/forkexec.forkAndExecInChild props C01 C03 C04 C05 C06 C07 C08
 //@   arith int bv
 //@   requires r != nil
 //@   requires #int forall j int :: soff(r.Files) <= j && j < soff(r.Files) + len(r.Files) ==> cell(r.Files, j) < 2147483648 || cell(r.Files, j) == 18446744073709551615
@@ -130,7 +130,9 @@ package forkexec
 //@   loop 7: invariant #int %mnt forall k int :: 0 <= k && k < len(old(r.Mounts)) ==> mount_entry_ok(k)
 //@   loop 7: invariant #bv exec_state_ok() && (K.last_trap == 59 || K.last_trap == 322)
 //@   callsite syscall.RawSyscall6 when trap == 322: assert @C04 #bv caps_ok() && nnp_ok() && filter_ok() && creds_ok() && session_ok() && names_ok()
+//@   callsite syscall.RawSyscall6 when trap == 322: assert @C01 #bv filter_ok()
 //@   callsite syscall.RawSyscall when trap == 59: assert @C04 #bv caps_ok() && nnp_ok() && filter_ok() && creds_ok() && session_ok() && names_ok()
+//@   callsite syscall.RawSyscall when trap == 59: assert @C01 #bv filter_ok()
 //@   callsite syscall.RawSyscall6 when trap == 322: assert @C05 #int %mnt forall k int :: 0 <= k && k < len(old(r.Mounts)) ==> mount_entry_ok(k)
 //@   callsite syscall.RawSyscall when trap == 59: assert @C05 #int %mnt forall k int :: 0 <= k && k < len(old(r.Mounts)) ==> mount_entry_ok(k)
 //@   callsite syscall.RawSyscall6 when trap == 322: assert @C05 #bv fs_ok()
